@@ -453,3 +453,34 @@ theorem fresh_of_perm (b : Nat) (hb : 0 < b) (recs : List α) (bs : List (List (
     exact hlines.mem_iff.mpr (by simp [List.mem_range']; omega)
 
 end Octo.Files
+
+namespace Octo.Files
+variable {α β : Type}
+
+/-! ### the workers' output when every line parses -/
+
+theorem number_map (g : α → β) : ∀ (xs : List α) (s : Nat),
+    (number s xs).map (fun p => (p.1, g p.2)) = number s (xs.map g)
+  | [], _ => rfl
+  | x :: xs, s => by simp [number, number_map g xs (s + 1)]
+
+theorem mkBatchesFrom_map (g : α → β) (b : Nat) : ∀ (fuel s : Nat) (xs : List α),
+    (mkBatchesFrom b fuel s xs).map (fun job => job.map fun p => (p.1, g p.2)) = mkBatchesFrom b fuel s (xs.map g)
+  | 0, _, _ => rfl
+  | _ + 1, _, [] => rfl
+  | fuel + 1, s, x :: xs => by
+    simp only [mkBatchesFrom, List.map_cons]
+    rw [mkBatchesFrom_map g b fuel (s + b), number_map]
+    have e1 : (g x :: xs.map g).take b = ((x :: xs).take b).map g := by rw [List.map_take]; rfl
+    have e2 : (g x :: xs.map g).drop b = ((x :: xs).drop b).map g := by rw [List.map_drop]; rfl
+    rw [e1, e2]
+
+/-- the batches the parser workers hand to the consumer are `parsedBatches` of the records, when every line parses -/
+theorem parseBatch_batches (parse : α → Option β) (b : Nat) (lines : List α) (recs : List β)
+    (h : lines.map parse = recs.map some) :
+    (mkBatches b lines).map (parseBatch parse) = parsedBatches b recs := by
+  have hl : lines.length = recs.length := by simpa using congrArg List.length h
+  unfold parsedBatches mkBatches parseBatch
+  rw [mkBatchesFrom_map parse b, mkBatchesFrom_map some b, h, hl]
+
+end Octo.Files
